@@ -700,6 +700,14 @@ def check_C06(chk):
     out = chk.run_harness(bins["dbg-native"], ["replay", "--kind", "stream", "--cases", pp], "replay size_by_params grid")
     if out:
         chk.add_replay(out, "replay size_by_params grid")
+    # vectors beyond any chunk or buffer size a loader may use internally (2^19 .. 2^26 items): load == original, all bytes consumed
+    one = os.path.join(chk.work, "bigload.cases.ndjson")
+    with open(one, "w") as f:
+        f.write('{"k": "bigload"}\n')
+    st = "round trip of Vec<u64> (2^20 + 100 items), Vec<(u64, u64)> (2^19 + 57), RawVector and BitVector (2^26 + 6417 bits)"
+    out = chk.run_harness(bins["dbg-native"], ["replay", "--kind", "bigload", "--cases", one], st)
+    if out:
+        chk.add_replay(out, st)
     # serialize + load (in memory and through serialize_to / load_from) at every state of the lifecycle machine
     stage_life(chk, bins, "C06", ["reload:", "file:"], ops='{"mut", "to", "enable", "reload", "file"}', maxlen=3 if chk.thorough else 2, scales=(1, 64, 65), big_scales=(1100,), big_stride=9)
     chk.cov["exhaustive"] = True
